@@ -16,6 +16,7 @@ import Pyiga.Proofs.HierPU
 import Pyiga.Proofs.HierTwoScale
 import Pyiga.Proofs.HierAdm
 import Pyiga.Proofs.HierTPAdm
+import Pyiga.Proofs.HierCover
 
 namespace Pyiga.Props.C04
 open Pyiga.Hier Pyiga.Index
@@ -297,10 +298,9 @@ children (`P = [[1],[1]]`). -/
 example :
     let N : ℕ → ℕ := fun k => if k = 0 then 1 else if k = 1 then 2 else 0
     let F : ℕ → Finset ℕ := fun k => if k = 1 then {0, 1} else ∅
-    let G : ℕ → Finset ℕ := fun k => if k = 0 then {0} else ∅
     ∀ r, r < N 1 → PU.blockSum N (fun _ _ _ => (1 : Int)) F 1 r 1 = 1 := by
-  intro N F G
-  have _hG := G
+  intro N F
+  let G : ℕ → Finset ℕ := fun k => if k = 0 then {0} else ∅
   refine (thb_partition_of_unity N (fun _ _ _ => (1 : Int)) F G 1 (fun _ _ _ => by decide) ?_ ?_ ?_ ?_).2
   · intro k i hi
     match k with
@@ -367,6 +367,26 @@ theorem admissible (kvs : Mesh) (d : Nat) (hd : 1 ≤ d) (hg : GoodMesh kvs) {s 
     k ≤ lv + d :=
   admissible_of_J d s.levels (reachable_wf kvs (some d) hg (reachableDefault_reachable h)).2
     (reachableDefault_J kvs d hd hg h).2 lv k f c hf hc ho.1 ho.2
+
+/-! ## support queries: the active cover -/
+
+/-- **active cover (`_TP_to_HMesh_cells_up`, the part of `hmesh_cells`/`compute_supports` acting on
+cells inside the refinement region).**  After any history, for a set `cells` of level-`lv` cells of
+`Ω^lv`, entry `i` of the result is exactly the set of active cells of level `lv+i` whose level-`lv`
+ancestor is in `cells` — by `tiling` these tile `cells` exactly once (smallest active cover). -/
+theorem active_cover_up (kvs : Mesh) (d : Option Nat) (hg : GoodMesh kvs) {s : HSpace}
+    (h : Reachable kvs d s) (lv : Nat) (hlv : lv < s.numlevels) (cells : List Idx)
+    (hc : ∀ c ∈ cells, c ∈ (s.level lv).act ∨ c ∈ (s.level lv).deact)
+    (i : Nat) (hi : lv + i < s.numlevels) (c : Idx) :
+    c ∈ (tpUp (s.levels.drop lv) cells).getD i [] ↔
+      c ∈ (s.level (lv + i)).act ∧ anc parTp i c ∈ cells := by
+  have hw := reachable_wf kvs d hg h
+  have L := tp_laws kvs hg.1 hg.2
+  obtain ⟨Ω', h1, h2, h3⟩ := inv_drop s.levels 0 (VCtp kvs 0) lv hw.2 (fun c hc => hc) hlv
+  have := tpUp_mem L (fun _ _ => rfl) (s.levels.drop lv) (0 + lv) Ω' cells h1 h2
+    (fun c hcc => (h3 c).2 (hc c hcc)) i c (by simp [HSpace.numlevels] at hi ⊢; omega)
+  rw [this]
+  simp [lvl, HSpace.level, List.getD_eq_getElem?_getD, List.getElem?_drop]
 
 /-! ## non-vacuity -/
 
